@@ -36,3 +36,77 @@ def be_s(v, k):
     if v < 0:
         return be_u(v + 256 ** k, k)
     return be_u(v, k)
+
+
+# --- numeric items (E5 format codes, octal): size in bytes and kind (u unsigned, s two's complement, f IEEE-754)
+NUM = {
+    0o51: (1, "u"), 0o52: (2, "u"), 0o54: (4, "u"), 0o50: (8, "u"),
+    0o31: (1, "s"), 0o32: (2, "s"), 0o34: (4, "s"), 0o30: (8, "s"),
+    0o44: (4, "f"), 0o40: (8, "f"),
+}
+FLT_MAX = 3.4028234663852886e38          # (2 - 2**-23) * 2**127
+DBL_MAX = 1.7976931348623157e308         # (2 - 2**-52) * 2**1023
+
+
+def num_size(fc):
+    return NUM[fc][0]
+
+
+def num_kind(fc):
+    return NUM[fc][1]
+
+
+def num_in_range(fc, v):
+    """v is a value E5 can represent in an item of format fc (floats: every value incl. NaN/inf has an encoding,
+    but only values that round to a finite binary32 are representable as F4 without overflow)."""
+    size, kind = NUM[fc]
+    if kind == "u":
+        return 0 <= v < 256 ** size
+    if kind == "s":
+        return -(256 ** size) // 2 <= v < (256 ** size) // 2
+    return True
+
+
+def num_bytes(fc, v):
+    """Big-endian payload bytes of one element."""
+    size, kind = NUM[fc]
+    if kind == "u":
+        return be_u(v, size)
+    if kind == "s":
+        return be_s(v, size)
+    if size == 4:
+        return f32_bytes(v)
+    return f64_bytes(v)
+
+
+def uint_at(data, pos, size):
+    total = 0
+    for t in range(size):
+        total = total * 256 + data[pos + t]
+    return total
+
+
+def num_value(fc, data, pos):
+    """Value denoted by the element at data[pos:pos+size]."""
+    size, kind = NUM[fc]
+    if kind == "u":
+        return uint_at(data, pos, size)
+    if kind == "s":
+        u = uint_at(data, pos, size)
+        if u >= (256 ** size) // 2:
+            return u - 256 ** size
+        return u
+    if size == 4:
+        return f32_of_bytes(data, pos)
+    return f64_of_bytes(data, pos)
+
+
+def num_eq(fc, a, b):
+    if NUM[fc][1] == "f":
+        return float_eq(a, b)
+    return a == b
+
+
+def hlen(n):
+    """Length of the canonical header for payload length n."""
+    return 1 + min_k(n)
